@@ -428,18 +428,24 @@ pub fn main(args: &[String]) -> anyhow::Result<()> {
     std::fs::create_dir_all(&scratch)?;
     let wd = std::env::var("NVH_WATCHDOG").ok().and_then(|s| s.parse().ok()).unwrap_or(60);
     watchdog::start(wd, Some(PathBuf::from(&args[1]).with_extension("hang")));
-    if std::env::var("NVH_DEBUG").is_err() {
-        std::panic::set_hook(Box::new(|_| {}));
-    }
+    watchdog::record_panics(std::env::var("NVH_DEBUG").is_err());
     for line in std::io::BufReader::new(scripts).lines() {
         let line = line?;
         if line.trim().is_empty() {
             continue;
         }
         let cs: CrashScript = serde_json::from_str(&line)?;
-        match cs.script.cfg.hasher.as_str() {
-            "sha2" => run::<Sha2Hasher>(&cs, &scratch, &mut out, &mut evout)?,
-            _ => run::<Blake3Hasher>(&cs, &scratch, &mut out, &mut evout)?,
+        // a panic of the store outside a guarded call (drop of a handle, background observation) is an outcome
+        let r = std::panic::catch_unwind(std::panic::AssertUnwindSafe(|| match cs.script.cfg.hasher.as_str() {
+            "sha2" => run::<Sha2Hasher>(&cs, &scratch, &mut out, &mut evout),
+            _ => run::<Blake3Hasher>(&cs, &scratch, &mut out, &mut evout),
+        }));
+        match r {
+            Ok(r) => r?,
+            Err(_) => {
+                rec::uninstall();
+                writeln!(out, "{}", json!({"ev":"Panic","run":cs.script.run,"msg":watchdog::last_panic(),"during":watchdog::current()}))?;
+            }
         }
         out.flush()?;
         evout.flush()?;
